@@ -42,15 +42,25 @@ theorem M.calls_le {α : Type} (x : M α) (limit : Nat) (a : α) (s' : St)
 tree, the number of entries into `convert_expr`, `convert_pattern`, `convert_markup_impl` and
 `convert_math` is at most `4 ·` (number of syntax nodes): no node is converted more than once per
 entry point, whatever the nesting. -/
-theorem printDoc_linear (e : Env) (root : Node) (d : Pretty.Doc) (calls : Nat)
-    (h : printDoc e root = .ok (d, calls)) : calls ≤ 4 * (prepare root).size := by
-  unfold printDoc at h
+theorem printTwin_linear (e : Env) (root : Node) (d : Twin.Doc) (calls : Nat)
+    (h : printTwin e root = .ok (d, calls)) : calls ≤ 4 * (prepare root).size := by
+  unfold printTwin at h
   simp only at h
   split at h
   · rename_i d' s hs
     simp only [Except.ok.injEq, Prod.mk.injEq] at h
     rw [← h.2]
     exact M.calls_le _ _ d' s hs
+  · cases h
+
+theorem printDoc_linear (cfg : Config) (wd : String → Nat) (root : Node) (d : Pretty.Doc) (calls : Nat)
+    (h : printDoc cfg wd root = .ok (d, calls)) : calls ≤ 4 * (prepare root).size := by
+  unfold printDoc at h
+  split at h
+  · rename_i d' calls' hp
+    simp only [Except.ok.injEq, Prod.mk.injEq] at h
+    rw [← h.2]
+    exact printTwin_linear _ root d' calls' hp
   · cases h
 
 mutual
